@@ -105,14 +105,26 @@ The output format is the same than input format.
 				var p string
 				var posint int64
 				positions = strings.Split(maskpos, ",")
+				// All the positions are first converted to alignment coordinates,
+				// on the alignment as it is before any masking (masking may
+				// replace characters of the reference sequence by gaps)
+				starts := make([]int, 0, len(positions))
 				for _, p = range positions {
 					if posint, err = strconv.ParseInt(p, 10, 32); err != nil {
 						io.LogError(err)
 						return
 					}
 					start := int(posint)
-					length := 1
-					if err = mask(al, start, length, refseq, maskrefseq, maskreplace, masknogap, masknoref); err != nil {
+					if refseq {
+						if start, _, err = al.RefCoordinates(maskrefseq, start, 1); err != nil {
+							io.LogError(err)
+							return
+						}
+					}
+					starts = append(starts, start)
+				}
+				for _, start := range starts {
+					if err = al.Mask(maskrefseq, start, 1, maskreplace, masknogap, masknoref); err != nil {
 						io.LogError(err)
 						return
 					}
